@@ -80,7 +80,8 @@ let show (mode : string) (tr : obs list) : string =
     | OReadE d -> rd := tok "E" d :: !rd
     | OWrite w -> frames := wire_bytes w :: !frames
     | OWriteH (d, data) -> if hb then wr := (tok "H" d ^ Printf.sprintf ".%x" (cs data)) :: !wr
-    | OWriteE (d, data) -> wr := (tok "E" d ^ Printf.sprintf ".%x" (cs data)) :: !wr) tr;
+    | OWriteE (d, data) -> wr := (tok "E" d ^ Printf.sprintf ".%x" (cs data)) :: !wr
+    | OAbsorb _ -> ()) tr;
   let frames = Stdlib.List.rev !frames and rd = Stdlib.List.rev !rd and wr = Stdlib.List.rev !wr in
   let n = Stdlib.List.length frames in
   let j l = if l = [] then "-" else String.concat "," l in
